@@ -48,19 +48,17 @@ func specSplit(s string) []string {
 
 // leniency reasons (finding ids) and the hard verdicts of one component
 const (
-	lenFewer       = "fs-fewer-components"
-	lenEmpty       = "fs-empty-component"
-	lenUnquoted    = "fs-unquoted-punctuation"
-	lenQuoted      = "fs-quoted-nonpunctuation"
-	lenSpecial     = "fs-double-asterisk"
-	specialOpen    = "special-only-open"
-	lenLanguage    = "fs-language-unchecked"
-	mustReject     = "must-reject"
-	uriCaseFold    = "uri-nonascii-case-fold"
-	rtUnderscore   = "roundtrip-quoted-underscore"
-	rtEmpty        = "roundtrip-empty-set-value"
-	patQuoted      = "pattern-quoted-character-width"
-	patQuotedTrail = "pattern-quoted-trailing-special"
+	lenFewer     = "fs-fewer-components"
+	lenEmpty     = "fs-empty-component"
+	lenUnquoted  = "fs-unquoted-punctuation"
+	lenQuoted    = "fs-quoted-nonpunctuation"
+	lenSpecial   = "fs-double-asterisk"
+	specialOpen  = "special-only-open"
+	lenLanguage  = "fs-language-unchecked"
+	mustReject   = "must-reject"
+	uriCaseFold  = "uri-nonascii-case-fold"
+	rtUnderscore = "roundtrip-quoted-underscore"
+	rtEmpty      = "roundtrip-empty-set-value"
 )
 
 // classifyAV classifies one attribute-value string of a formatted string:
